@@ -17,15 +17,18 @@
     * safety: every function of the model is total (Lean's termination check: no partial def, no unsafe) — that is the
       "never panics" half for the modelled code; on top of that: the MessagePack decoder never asks `make` for more
       elements than the packet has bytes (msgpack_alloc_bounded; false on the pinned tree, orig_alloc_unbounded), and
-      msgp.Skip and the MessagePack batch loop terminate by consuming input (msgpack_skip_terminates,
-      parse_terminates_partial; TL and Protobuf loops: see the comment there).
+      no TL or MessagePack reader ever reports fuel exhaustion and their batch loops terminate by consuming input
+      (tl_loop_terminates, msgpack_loop_terminates, parse_terminates_non_pb); the Protobuf loops: see the comment there.
     * TCP framing: deframe ∘ frame = id for all bodies within the bound, and arbitrary chunking of the stream does not
       matter when the read buffer holds header + largest body (tcp_*); false for a smaller buffer (witness).
-    * MessagePack / Protobuf round trips for ALL batches are NOT proved (only the statement is kept, see the comment
-      at the end); cross-format agreement is proved for TL and shown on concrete witnesses for the other two; the
-      correspondence and the direct oracle cover them on generated batches. JSON is outside the model.
+    * MessagePack and Protobuf round trips for ALL well-formed batches (msgpack_roundtrip, pb_roundtrip, with the varint
+      round trip and the unpacked value/unique layouts), hence all_formats_agree at full strength for TL+MessagePack+
+      Protobuf. JSON is outside the model (correspondence / oracle only).
 -/
 import SH.Lemmas.Wire
+import SH.Lemmas.WireMP
+import SH.Lemmas.WirePB4
+import SH.Lemmas.WireFuel
 import SH.Gen.C13
 
 namespace SH.Props.C13
@@ -221,15 +224,41 @@ example : parse .fixed bomb14 = { fmt := .msgpack, err := some .short, perr := t
 theorem msgpack_skip_terminates (b : Bytes) : mpSkip b ≠ .error .fuel :=
   mpSkipN_fuel _ _ _ _ (Nat.lt_succ_self _)
 
-/- `parse_terminates` (full statement, NOT proved): ∀ v pkt, (parse v pkt).err ≠ some .fuel, i.e. every loop of the
-   model ends by consuming input, never by exhausting the fuel the model gives it.
-   Proved below: the MessagePack batch loop `for len(pkt) > 0` of parse never exhausts its fuel itself (every successful
-   batch read consumes at least its header byte), and Skip never does (above).
-   Missing: (a) that no other MessagePack reader hands up `fuel` (they contain no fuel; a syntactic walk over ~20 readers);
-   (b) the same two facts for TL; (c) the Protobuf loops (pbBatch, pbMetric, pbEntry, pbCentroid, pbSkipVal/pbSkipGroup,
-   pbPackedVar) get `len+1` (`2·len+2` for groups) units of fuel; that this suffices (each iteration consumes ≥ 1 byte
-   of tag) is not proved. All of it is checked on every generated packet: the Go side can never print `ret=fuel`, so a
-   model run that exhausted its fuel is a correspondence disagreement. -/
+/-- The TL batch loop of parse terminates by consuming input: every successful ReadTL1Boxed consumes at least its
+    4-byte tag, no TL reader has (or reports) fuel, so `len(pkt)+1` loop iterations always suffice. -/
+theorem tl_loop_terminates (pkt : Bytes) (acc : List Metric) (a : Nat) :
+    (batchLoop (fun b => ⟨0, tlBatch b⟩) .tl (pkt.length + 1) pkt acc a).err ≠ some .fuel :=
+  batchLoop_fuel _ .tl (fun b y r h => tlBatch_strict b y r h) (fun b => tlBatch_nf b) _ _ _ _ (Nat.lt_succ_self _)
+
+/-- The MessagePack batch loop terminates by consuming input; no MessagePack reader reports fuel exhaustion
+    (msgp.Skip is the only one that has fuel: `len+1` units, proved sufficient). -/
+theorem msgpack_loop_terminates (v : Variant) (hv : v.boundAlloc = true) (pkt : Bytes) (acc : List Metric) (a : Nat) :
+    (batchLoop (mpBatch v) .msgpack (pkt.length + 1) pkt acc a).err ≠ some .fuel :=
+  batchLoop_fuel (mpBatch v) .msgpack (fun b y r h => (mpBatch_good v hv b).2 y r h) (fun b => mpBatch_nf v b) _ _ _ _
+    (Nat.lt_succ_self _)
+
+/-- parse never ends by exhausting the model's fuel on any packet that is not handed to the Protobuf decoder
+    (empty, TL, JSON-detected, legacy, MessagePack): fuel bounds `len+1` (batch loops) and `len+1` (Skip). -/
+theorem parse_terminates_non_pb (v : Variant) (hv : v.boundAlloc = true) (pkt : Bytes) (h : detect pkt ≠ .pb) :
+    (parse v pkt).err ≠ some .fuel := by
+  unfold parse
+  split
+  · simp
+  · simp
+  · simp
+  · exact tl_loop_terminates pkt [] 0
+  · exact msgpack_loop_terminates v hv pkt [] 0
+  · rename_i hd; exact absurd hd h
+
+example : detect bomb14 ≠ .pb ∧ Variant.fixed.boundAlloc = true := by decide
+
+/- `parse_terminates` (full statement): ∀ v pkt, (parse v pkt).err ≠ some .fuel.
+   Proved above for every packet that does not go to the Protobuf decoder. NOT proved for Protobuf: the loops pbBatch,
+   pbMetric, pbEntry, pbCentroid, pbPackedVar get `len+1` and pbSkipVal/pbSkipGroup `2·len+2` units of fuel; each
+   iteration consumes at least the tag byte, but the sufficiency proof (a mutual induction for the group skipper plus
+   consumption lemmas for every Protobuf reader) was not done in the time box. It is checked on every generated packet:
+   the Go side can never print `ret=fuel`, so a model run that exhausted its fuel is a correspondence disagreement;
+   on encoder outputs it follows from pb_roundtrip (the decoder returns ok). -/
 theorem parse_terminates_partial (v : Variant) (hv : v.boundAlloc = true) (pkt : Bytes) (acc : List Metric) (a : Nat)
     (h : (batchLoop (mpBatch v) .msgpack (pkt.length + 1) pkt acc a).err = some .fuel) :
     ∃ b, (mpBatch v b).res = .error .fuel :=
@@ -353,14 +382,84 @@ theorem all_formats_agree_partial (v : Variant) (ms : List Metric) (hn : ms.leng
     unfold parse; rw [this]; simp only []
     split <;> rfl
 
-/- `all_formats_agree` (full statement, NOT proved):
-     ∀ v = .fixed, ∀ ms with ms.length < 2^32 and every metric WF (and, for Protobuf, ms ≠ []):
-       (parse v (tlEncBatch ms)).delivered.map sem = ms.map sem ∧
-       (parse v (mpEncBatch ms)).delivered.map sem = ms.map sem ∧
-       (parse v (pbEncBatch ms)).delivered.map sem = ms.map sem      and all three without error.
-   Missing: msgpack_roundtrip (mpBatch .fixed (mpEncBatch ms ++ r) = ok (ms', r) with ms'.map sem = ms.map sem) and
-   pb_roundtrip (pbBatch .fixed _ [] (pbEncBatch ms) = ok ms' likewise; needs varint round trip and the fuel argument).
-   Until then the MessagePack and Protobuf halves rest on the correspondence (model decoders = real decoders, model
-   encoders = real encoders, byte for byte on generated batches) and on the direct oracle on the real code. -/
+/-! ## MessagePack and Protobuf round trips for ALL well-formed batches, and the full agreement theorem -/
+
+/-- MessagePack: the canonical client encoding (msgp.Append*; tied to the real encoder by the `enc` op) of any batch of
+    well-formed metrics, followed by anything, is decoded — by the pinned and by the fixed decoder — into metrics with
+    exactly the content of the batch (`mpDecoded m` = `m` with the fields mask rebuilt from the fields present). -/
+theorem msgpack_roundtrip (v : Variant) (ms : List Metric) (hn : ms.length < 2 ^ 32) (hw : ∀ m ∈ ms, m.WF) (rest : Bytes) :
+    (mpBatch v (mpEncBatch ms ++ rest)).res = .ok (ms.map mpDecoded, rest) ∧ (ms.map mpDecoded).map sem = ms.map sem := by
+  refine ⟨mpBatch_enc v ms hn hw rest, ?_⟩
+  rw [List.map_map]
+  apply List.map_congr_left
+  intro m hm
+  exact sem_mpDecoded m (hw m hm)
+
+/-- Protobuf: proto3 encoding as proto.Marshal produces it (packed `value`/`unique`, zero scalars omitted; tied to the
+    real encoder by the `enc` op) of any batch of well-formed metrics whose encodings fit 32-bit lengths decodes into
+    metrics with exactly the content of the batch. -/
+theorem pb_roundtrip (v : Variant) (ms : List Metric) (h : ∀ m ∈ ms, m.WF ∧ (pbEncMetric m).length < 2 ^ 32) :
+    pbBatch v ((pbEncBatch ms).length + 1) [] (pbEncBatch ms) = .ok (ms.map pbDecoded) ∧
+    (ms.map pbDecoded).map sem = ms.map sem := by
+  refine ⟨pbBatch_enc v ms h, ?_⟩
+  rw [List.map_map]
+  apply List.map_congr_left
+  intro m _
+  exact sem_pbDecoded m
+
+/-- varint round trip (protowire.AppendVarint / ConsumeVarint), every uint64 -/
+theorem pb_varint_roundtrip (x : Nat) (hx : x < 2 ^ 64) (rest : Bytes) : pbVarint (pbEncV x ++ rest) = .ok (x, rest) :=
+  pbVarint_enc x rest hx
+
+/-- Unpacked layouts: `value` sent as one fixed64 record per element and `unique` as one varint record per element put the
+    same elements into the metric as the packed records do (only the mask bookkeeping term differs in shape).
+    The `unique` half needs the fix (wire type 0); on the pinned tree it is false — `pb_unpacked_unique_orig`. -/
+theorem pb_unpacked_forms (v : Variant) (hv : v.uniqueWt0 = true) (m : Metric) (vs us : List Nat) (k : Nat) (t : Bytes)
+    (hvs : ∀ x ∈ vs, x < 2 ^ 64) (hus : ∀ x ∈ us, x < 2 ^ 64) (hvn : vs.length < 2 ^ 32) (hun : us.length < 2 ^ 32) :
+    (pbMetric v (k + vs.length) m (catMap pbValueRec vs ++ t)
+        = pbMetric v k { m with value := m.value ++ vs, mask := maskN 1 vs.length m.mask } t) ∧
+    (pbMetric v (k + 1) m (pbEncLen 5 (catMap (le 8) vs) ++ t)
+        = pbMetric v k { m with value := m.value ++ vs, mask := setBit m.mask 1 } t) ∧
+    (pbMetric v (k + us.length) m (catMap pbUniqueRec us ++ t)
+        = pbMetric v k { m with unique := m.unique ++ us, mask := maskN 2 us.length m.mask } t) ∧
+    (pbMetric v (k + 1) m (pbEncLen 6 (catMap pbEncV us) ++ t)
+        = pbMetric v k { m with unique := m.unique ++ us, mask := setBit m.mask 2 } t) :=
+  ⟨pbValueUnpacked_enc v vs m k t hvs, pbRec_value v k m vs t hvn hvs,
+   pbUniqueUnpacked_enc v hv us m k t hus, pbRec_unique v k m us t hun hus⟩
+
+/-- ALL FORMATS AGREE (TL, MessagePack, Protobuf; JSON is outside the model): for every batch of well-formed metrics,
+    parser.parse detects each encoding as its format, reports no error, and delivers — in order — metrics with the same
+    name, tags, counter, timestamp, values, uniques and histogram as the batch, hence the same as each other. -/
+theorem all_formats_agree (v : Variant) (ms : List Metric) (hn : ms.length < 2 ^ 32)
+    (hw : ∀ m ∈ ms, m.WF ∧ (pbEncMetric m).length < 2 ^ 32) :
+    (parse v (tlEncBatch ms)).delivered.map sem = ms.map sem ∧ (parse v (tlEncBatch ms)).err = none ∧
+    (parse v (mpEncBatch ms)).delivered.map sem = ms.map sem ∧ (parse v (mpEncBatch ms)).err = none ∧
+    (parse v (pbEncBatch ms)).delivered.map sem = ms.map sem ∧ (parse v (pbEncBatch ms)).err = none ∧
+    (parse v (tlEncBatch ms)).fmt = .tl ∧ (parse v (mpEncBatch ms)).fmt = .msgpack ∧
+    (ms ≠ [] → (parse v (pbEncBatch ms)).fmt = .pb) := by
+  have hw' : ∀ m ∈ ms, m.WF := fun m hm => (hw m hm).1
+  have htl := parse_tl v ms hn hw'
+  obtain ⟨m1, m2, m3, _⟩ := parse_mpEnc v ms hn hw'
+  have hmp := (msgpack_roundtrip v ms hn hw' []).2
+  have hpb := (pb_roundtrip v ms hw).2
+  refine ⟨by rw [htl], by rw [htl], by rw [m2]; exact hmp, m3, ?_, ?_, by rw [htl], m1, ?_⟩
+  · cases ms with
+    | nil => rfl
+    | cons m ms => rw [parse_pbEnc v m ms hw]; exact hpb
+  · cases ms with
+    | nil => rfl
+    | cons m ms => rw [parse_pbEnc v m ms hw]
+  · intro hne
+    cases ms with
+    | nil => exact absurd rfl hne
+    | cons m ms => rw [parse_pbEnc v m ms hw]
+
+/-- non-vacuity: the witness batch satisfies every hypothesis of `all_formats_agree` -/
+example : ∀ m ∈ [mFull, mBare], m.WF ∧ (pbEncMetric m).length < 2 ^ 32 := by
+  intro m hm
+  simp at hm
+  rcases hm with rfl | rfl
+  · exact ⟨mFull_wf, by decide⟩
+  · exact ⟨mBare_wf, by decide⟩
 
 end SH.Props.C13
